@@ -7,7 +7,8 @@
       Unresolve(FullImageOffset) on an artifact of [size] bytes; [pmm_*_bios blen] the BIOS-region
       variants; [uefi_phys_to_offset len] / [uefi_offset_to_phys len] : UEFI.PhysAddrToOffset /
       OffsetToPhysAddr; [calc_*] : pkg/uefi/consts; [is_phys_addr] : isPhysAddr;
-      [calc_image_offset layout addr] : tools.CalcImageOffset; every Go uint64 operation is mod 2^64;
+      [calc_image_offset layout imglen addr] : tools.CalcImageOffset on an image of [imglen] bytes;
+      every Go uint64 operation is mod 2^64;
     - [tree], [walk rm fb t] : ffs.NodeVisitor.Run over an abstract node tree, [rm] the rows of
       fiano's table visitor per name (NameToRangesMap), [fb] = FallbackToContainerRange;
       [pre t false] : the nodes in visit order (with "below a processed section");
@@ -129,19 +130,20 @@ Proof. exact bios_ranges_spec. Qed.
 Print Assumptions C14_bios_region_ranges.
 
 (** * 5. CalcImageOffset: exact for full flash images and coreboot images whose BIOS region /
-      COREBOOT area ends the image; wrong for bare BIOS regions (finding D9) *)
+      COREBOOT area ends the image, and for bare BIOS regions (the former finding D9, repaired
+      by fix 98fb605) *)
 
 Theorem C14_calcoffset_full_flash :
   forall off size imgsize o,
     0 <= off -> 0 <= size -> off + size = imgsize -> imgsize < W32 -> 0 <= o < imgsize ->
-    calc_image_offset (LFullFlash off size) (BASE - imgsize + o) = Ok o.
+    calc_image_offset (LFullFlash off size) imgsize (BASE - imgsize + o) = Ok o.
 Proof. exact calcoffset_full_flash. Qed.
 Print Assumptions C14_calcoffset_full_flash.
 
 Theorem C14_calcoffset_coreboot :
   forall off size imgsize o,
     0 <= off -> 0 <= size -> off + size = imgsize -> imgsize < W32 -> 0 <= o < imgsize ->
-    calc_image_offset (LCoreboot off size) (BASE - imgsize + o) = Ok o.
+    calc_image_offset (LCoreboot off size) imgsize (BASE - imgsize + o) = Ok o.
 Proof. exact calcoffset_coreboot. Qed.
 Print Assumptions C14_calcoffset_coreboot.
 
@@ -153,22 +155,29 @@ Theorem C14_calcoffset_region_anchor :
 Proof. exact calc_region_offset_exact. Qed.
 Print Assumptions C14_calcoffset_region_anchor.
 
-Theorem C14_calcoffset_bios_refuted :
-  exists imgsize o, 0 < imgsize <= BASE /\ 0 <= o < imgsize /\
-    calc_image_offset LBiosOnly (BASE - imgsize + o) <> Ok o.
-Proof. exact calcoffset_bios_refuted. Qed.
-Print Assumptions C14_calcoffset_bios_refuted.
-
-(** what it returns instead: the distance from the end of the image; right only in the middle *)
-Theorem C14_calcoffset_bios_characterised :
+(** bare BIOS region: address = 4GiB - size + offset, for every image size up to 4 GiB and every
+    offset inside the image *)
+Theorem C14_calcoffset_bios_only :
   forall imgsize o, 0 < imgsize <= BASE -> 0 <= o < imgsize ->
-    calc_image_offset LBiosOnly (BASE - imgsize + o) = Ok (imgsize - o) /\
-    (calc_image_offset LBiosOnly (BASE - imgsize + o) = Ok o <-> 2 * o = imgsize).
-Proof.
-  exact (fun imgsize o H1 H2 => conj (calcoffset_bios_characterised imgsize o H1 H2)
-                                     (calcoffset_bios_right_only_in_the_middle imgsize o H1 H2)).
-Qed.
-Print Assumptions C14_calcoffset_bios_characterised.
+    calc_image_offset LBiosOnly imgsize (BASE - imgsize + o) = Ok o.
+Proof. exact calcoffset_bios_only. Qed.
+Print Assumptions C14_calcoffset_bios_only.
+
+(** ... it is the region formula of the other two layouts with the whole image as the region *)
+Theorem C14_calcoffset_bios_only_anchor :
+  forall imgsize addr, 0 <= imgsize < W32 -> BASE - imgsize <= addr < W64 ->
+    calc_image_offset LBiosOnly imgsize addr = Ok (calc_region_offset 0 imgsize addr) /\
+    calc_region_offset 0 imgsize addr = addr - (BASE - imgsize).
+Proof. exact calcoffset_bios_only_anchor. Qed.
+Print Assumptions C14_calcoffset_bios_only_anchor.
+
+(** the recorded failing inputs of the former defect: the bundled 64 KiB image at 0xfffffff0
+    (was 0x10) and the first byte of the 0x5e0000-byte image (was 0x5e0000, one past the end) *)
+Theorem C14_calcoffset_bios_only_witness :
+  calc_image_offset LBiosOnly 65536 4294967280 = Ok 65520 /\
+  calc_image_offset LBiosOnly 6160384 4288806912 = Ok 0.
+Proof. exact calcoffset_bios_only_witness. Qed.
+Print Assumptions C14_calcoffset_bios_only_witness.
 
 (** * 6. Walker bookkeeping.
       _partial: needs the hypothesis [rows_ok] -- the rows that NameToRangesMap harvests from
